@@ -137,7 +137,7 @@ def _beta_cs(a, b, x, y):
     with mp.workdps(DPS + 60):
         def nterms(a_, b_, x_, y_):
             hump = max(mpf(0), (x_ * (a_ + b_) - a_ - 1) / y_)
-            return hump + 250 / (-mp.log1p(-y_)) if y_ < 1 else mpf(0)
+            return hump + 22 * mp.sqrt((a_ + hump) / y_) + 250 / (-mp.log1p(-y_)) if y_ < 1 else mpf(0)
         if nterms(a, b, x, y) <= nterms(b, a, y, x):
             c = _ibeta_series(a, b, x, y)
             s = 1 - c
